@@ -205,8 +205,9 @@ CLAIMS['C10'] = {
              'never panics and leaves no reservation and no reserved tree; in a drained state a base-order get (any class, slot or none, both search '
              'configurations) SUCCEEDS whenever some tree is unreserved with a positive counter - in particular whenever a frame outside hidden (offline) '
              'trees is free, because there the counter is exactly the number of free frames; a targeted get succeeds only on an entirely free block and '
-             'returns it (C02).' + PART + 'the converse direction for targeted gets (a free block outside offline trees is always obtained) is carried by '
-             'the drain oracle of the correspondence.'),
+             'returns it (C02), and - get_at_after_drain_complete - a targeted get of a block that is entirely free and lies in a tree that is not hidden '
+             'ALWAYS returns it: both clauses of the property hold in every drained state satisfying the upper invariant (every state after a drain in '
+             'every sequential history of a constructed allocator).'),
     'note': TB + ' Upper-level theorems hold for configurations satisfying CfgOk (class ids < 8, ordered policy, tree size < 2^19: every configuration of the repository; derived from elementary checks by CfgOk.of_checks); they depend on the C23 theorem (bv_decide axioms) through the lower search.',
     'technique': 'Lean 4 completeness proof of the tree search (progress lemma for search_best, visiting order, lower search completeness C12) + drain-probe differential with shadow oracle',
 }
